@@ -206,7 +206,14 @@ def check_dispatch(case, ctx):
             c.handle(arg)(mk(label, beh))
             registered[cmd].append(label)
         elif how == "register":
-            c.register_task(cmd, mk(label, beh))
+            # register_task is public too: same three spellings of the command
+            if cmd is None or cmd == -1 or n % 3 == 0 or cmd in UNKNOWN_COMMANDS:
+                arg = cmd
+            elif n % 3 == 1:
+                arg = BeaconCommand(cmd)
+            else:
+                arg = TaskPacket().command.__class__(cmd)
+            c.register_task(arg, mk(label, beh))
             registered[cmd].append(label)
         elif how == "catch_all":
             c.catch_all()(mk(label, beh))
@@ -238,6 +245,10 @@ def check_dispatch(case, ctx):
     real_time = cl.time
     cl.time = types.SimpleNamespace(sleep=lambda s: sleeps.append(s), time=_time.time)
     c.silent = True
+    records = []
+    if case.get("writer"):
+        # run(writer=...) / -w: every task and callback is also written as a record before it is handled
+        c.writer = types.SimpleNamespace(write=records.append, flush=lambda: None)
     before = contracts.evaluations["client.get_handlers.pure"]
     try:
         try:
@@ -291,7 +302,7 @@ def check_dispatch(case, ctx):
            nontrivial=bool(counts) and max(counts.values()) >= 2, case=case,
            classes=(f"hist:{'1-5' if len(case['history']) <= 5 else '6-50' if len(case['history']) <= 50 else '51-200'}",
                     *{f"reg:{r[0]}" for r in case["registrations"]}, "reg:method" if case["methods"] else "reg:nomethod",
-                    "on_catch_all" if case["on_catch_all"] else "no_on_catch_all"))
+                    "on_catch_all" if case["on_catch_all"] else "no_on_catch_all", "writer" if case.get("writer") else "no_writer"))
 
 
 def check_case(case, ctx):
@@ -311,7 +322,11 @@ UNKNOWN_COMMANDS = [0, 20, 48, 103, 104, 200, 65535]  # ids outside the client's
 
 
 def gen_names(rng):
-    kind = rng.choice(["default", "ascii", "long", "latin1", "cjk", "empty", "mixed"])
+    kind = rng.choice(["default", "ascii", "long", "latin1", "cjk", "empty", "mixed", "surrogate"])
+    if kind == "surrogate":
+        # names as they arrive from the command line when the bytes are not valid UTF-8 (surrogateescape), before and
+        # beyond the 51-byte cut, and an unpaired surrogate from a UTF-16 source
+        return rng.choice(["caf\udce9", "u" * 60 + "\udc80", "user"]), rng.choice(["PC-\ud83d", "HOST\udcff", "HOST"]), rng.choice(["\udcff.exe", "p.exe"]), kind
     if kind == "default":
         return None, None, None, kind
     if kind == "ascii":
@@ -376,7 +391,8 @@ def run_shard(shard, ctx):
             pool = cmds + [rng.choice(COMMANDS + UNKNOWN_COMMANDS)]
             hist = [None if rng.random() < 0.12 else rng.choice(pool) for _ in range(n)]
             check_case({"op": "dispatch", "registrations": regs, "methods": methods, "on_catch_all": rng.random() < 0.4, "history": hist,
-                        "sleeptime": rng.choice([0, 100, 60000]), "jitter": rng.choice([0, 10, 99]), "seed": rng.getrandbits(32)}, ctx)
+                        "sleeptime": rng.choice([0, 100, 60000]), "jitter": rng.choice([0, 10, 99]), "seed": rng.getrandbits(32),
+                        "writer": rng.random() < 0.25}, ctx)
     else:
         raise ValueError(kind)
 
